@@ -288,15 +288,49 @@ def digitsOf (s : Str) : Option Nat :=
   let ds := s.filter isDigit
   if ds = [] then none else some (natOf ds)
 
+/-! `re.split(r"(?<=\d)\s*-\s*(?=\d)", part)` : a part is cut only at a hyphen (with optional
+whitespace around it) that stands between two digits, so `Port-channel1-3` is
+`["Port-channel1", "3"]`.  Written as a one-pass automaton; a match can only start right
+after a digit and consists of whitespace and one hyphen, so a failed attempt never hides a
+later match. -/
+
+inductive IvMode
+  | other      -- the previous character is not a digit and no attempt is open
+  | digit      -- the previous character is a digit
+  | blanks     -- digit, then whitespace
+  | hyphen     -- digit, whitespace*, '-', whitespace*
+deriving Repr, DecidableEq
+
+/-- `cur` is the current piece reversed (pending characters of an open attempt included),
+`cut` is `cur` as it was when the open attempt started, `done` the finished pieces reversed -/
+def splitIvGo : IvMode → Str → Str → List Str → Str → List Str
+  | _, _, cur, done, [] => (cur.reverse :: done).reverse
+  | .other, cut, cur, done, c :: cs =>
+    splitIvGo (if isDigit c then .digit else .other) cut (c :: cur) done cs
+  | .digit, cut, cur, done, c :: cs =>
+    if isSpace c then splitIvGo .blanks cur (c :: cur) done cs
+    else if c = '-' then splitIvGo .hyphen cur (c :: cur) done cs
+    else splitIvGo (if isDigit c then .digit else .other) cut (c :: cur) done cs
+  | .blanks, cut, cur, done, c :: cs =>
+    if isSpace c then splitIvGo .blanks cut (c :: cur) done cs
+    else if c = '-' then splitIvGo .hyphen cut (c :: cur) done cs
+    else splitIvGo (if isDigit c then .digit else .other) cut (c :: cur) done cs
+  | .hyphen, cut, cur, done, c :: cs =>
+    if isSpace c then splitIvGo .hyphen cut (c :: cur) done cs
+    else if isDigit c then splitIvGo .digit [] [c] (cut.reverse :: done) cs
+    else splitIvGo .other cut (c :: cur) done cs
+
+def splitIv (part : Str) : List Str := splitIvGo .other [] [] [] part
+
 /-- one comma-separated part: the value of the iterated attribute written at its head, and the
-end of the interval if there is a hyphen.  `range(begin_ordinal, end_ordinal + 1)` needs an int
+end of the interval if there is an interval hyphen (`splitIv`).  `range(begin_ordinal, end_ordinal + 1)` needs an int
 `begin_ordinal`, otherwise `TypeError`. -/
 def partBounds (a : Attr) (part : Str) : Except Err (Option Nat × Option Nat) :=
-  let pieces := splitOn '-' part
+  let pieces := splitIv part
   match parse (strip (pieces.headD [])) with
   | .error e => .error e
   | .ok o =>
-    if part.contains '-' then
+    if pieces.length > 1 then
       match pieces with
       | [_, e] =>
         match digitsOf (strip e) with
@@ -342,7 +376,7 @@ def plan (text : Str) : Except Err (Intf × Attr × List (Option Nat × Option N
   match splitOn ',' text with
   | [] => .error .indexError          -- unreachable: `split` never returns []
   | p0 :: rest =>
-    match parse ((splitOn '-' p0).headD []) with
+    match parse ((splitIv p0).headD []) with
     | .error e => .error e
     | .ok b0 =>
       let b : Intf := match lastWord text with
